@@ -22,7 +22,7 @@ from hypothesis import strategies as st
 
 from props import iter_common
 from vlib import dsops, oracles
-from vlib.core import Stage
+from vlib.core import Stage, hang_is_violation
 
 ID = "C02"
 LEVEL = "exploration"
@@ -308,7 +308,10 @@ STAGES = [
               "thorough": 5000
           },
           fork=True,
-          rust=True),
+          rust=True,
+          timeout=150,
+          timeout_violation=hang_is_violation(
+              "multiset", "a full pass over a committed split")),
     Stage(name="lazy_sched",
           run=run_lazy,
           strategy=strategy_lazy,
